@@ -749,8 +749,8 @@ func maxEdgeCheck(fa *FA, top *ssa.Phi, src ssa.Value) string {
 		}
 		d := fa.Lin(e).Sub(fa.Lin(src))
 		bd := fa.BoundsAt(pred, d)
-		if fa.boundsIncludingSelf(pred, p.Block(), d, &bd); !(bd.HasHi && bd.Hi == -1) {
-			return fmt.Sprintf("last+1 replaces the size on the edge (other - (last+1)) in %s; it must be exactly other < last+1", bd)
+		if fa.boundsIncludingSelf(pred, p.Block(), d, &bd); !(bd.HasHi && bd.Hi <= 0) {
+			return fmt.Sprintf("last+1 replaces the size on the edge (other - (last+1)) in %s; a maximum needs other <= last+1 there", bd)
 		}
 	}
 	return ""
